@@ -42,10 +42,63 @@ def violation_table(tier):
     return out
 
 
+DLG_ID = ("C11 same-cluster ObjectSetPhase controller: write although an object of the phase violates preflight, or write outside "
+          "the ObjectSetPhase's namespace / on a cluster-scoped kind, or the violation is not reported as Available=False/PreflightError")
+
+
+def phase_controller_violations():
+    """Each violating kind at every position of the 3 objects of an ObjectSetPhase, through the real same-cluster
+    (Cluster)ObjectSetPhase controller (and the ObjectSet controller that relays it)."""
+    import dlglib as dl, setlib as sl
+    out = []
+    for (okind, ons, pkind) in ((1, 1, 3), (2, 0, 4)):
+        for bad, pos in itertools.product(["foreignns", "clusterkind", "clusterkind-ns", "apimissing", "ownerrefs", "dryreject", "none"], (0, 1, 2)):
+            objs = [pl.mk_pobj(1, 0 if ons else 1, i + 1, body=2) for i in range(3)]
+            o = objs[pos]
+            if bad == "apimissing":
+                o["gk"] = 4
+            elif bad == "ownerrefs":
+                o["ownerrefs"] = True
+            elif bad == "foreignns":
+                o["ns"] = 2
+            elif bad == "clusterkind":
+                o["gk"], o["ns"] = 3, 0
+            elif bad == "clusterkind-ns":
+                o["gk"], o["ns"] = 3, 1
+            elif bad == "dryreject":
+                o["dryreject"] = True
+            pname = dl.join_name(10, 1)
+            t = sl.mk_set(okind, ons, 10, 100, rv=5, phases=[{"name": 1, "class": True, "objects": objs}], revision=1)
+            t["remotes"] = [[pname, 301]]
+            po = dl.mk_phase_obj(pkind, ons, pname, 301, rv=20, gen=1, owners=[[okind, 10, 100, 1]], objects=objs, revision=1)
+            ptgt = {"kind": pkind, "ns": ons, "name": pname, "uid": 301}
+            out.append({"family": "c11-phase-controller", "force": False, "strategy": "native", "store": [], "sets": [t], "phases": [po],
+                        "nss": [[1, 0], [2, 0]] if ons else [], "next_rv": 50, "next_uid": 400, "kubelet": False,
+                        "stages": [{"targets": [dl.tgt(t)], "policy": "explicit",
+                                    "explicit": [{"actor": "phase", "target": ptgt}, {"actor": "set", "target": dl.tgt(t)}, {"actor": "phase", "target": ptgt}]}],
+                        "twin": False})
+    return out
+
+
 def check(run, tier, seed, replay=None):
+    if replay:
+        import json
+        rsc = json.load(open(replay))["replay"]["scenario"]
+        if "stages" in rsc:
+            import C15 as dlg
+            vlib.std_proof_stage(run, "C11")
+            n, passes, _, _ = dlg.delegation_stage(run, "C11", [rsc], id_mon=DLG_ID, id_twin=DLG_ID, id_own=DLG_ID)
+            run.cov["evaluations"] = n
+            run.cov["rule"] = "replay"
+            return
     pscs = violation_table(tier) + pc.random_phases(seed + 11, 300 if tier == "quick" else 6000) + pc.random_teardowns(seed + 12, 200 if tier == "quick" else 4000)
     setcheck.set_check(run, "C11", tier, seed, replay, 800, 12000, "judge11",
                        "C11 write although preflight fails / duplicate object written / write outside the owner's namespace",
                        "violating kind x position x flavour x owner scope x rollout/teardown table through the real PhaseReconciler, random phases, "
                        "and random ObjectSets (incl. duplicates across phases with and without explicit namespace) through the real controller",
                        phase_judge="judge11p", phase_scs=pscs)
+    if not replay:
+        import C15 as dlg
+        n, passes, _, _ = dlg.delegation_stage(run, "C11", phase_controller_violations(), id_mon=DLG_ID, id_twin=DLG_ID, id_own=DLG_ID)
+        run.cov["evaluations"] += n
+        run.cov["phase_controller_stage"] = {"scenarios": n, "controller_passes": passes}
